@@ -46,6 +46,11 @@ for e, alarms in res:
     if alarms:
         bad += 1
         print('ALARM', e['id'], alarms)
-json.dump([e for e, a in res], open(os.path.join(R, 'INDEX.json'), 'w'), indent=1)
+# merge into the index as it is *now* (entries imported while this run was going are kept)
+cur = {e['id']: e for e in json.load(open(os.path.join(R, 'INDEX.json')))}
+for e, a in res:
+    cur[e['id']] = e
+out = sorted(cur.values(), key=lambda e: (e['area'], int(e['id'].split('-r')[1])))
+json.dump(out, open(os.path.join(R, 'INDEX.json'), 'w'), indent=1)
 print('refactorings=%d alarms=%d' % (len(res), bad))
 sys.exit(1 if bad else 0)
